@@ -629,3 +629,42 @@ def check_C19(tier: str, seed: int) -> int:
                      "event energies and distances are floats: sums compared with relative tolerance 1e-9",
                      "stations with plugs of two energy types get one load figure that adds kWh and gallons (implementation behaviour; the packaged scenarios have none)"]
     return v.finish()
+
+
+HASHSEED_BUDGET = {"quick": 32, "thorough": 640}
+
+
+@register("C01")
+def check_C01(tier: str, seed: int) -> int:
+    v = fw.Verdict("C01", tier, seed, "proof")
+    ps = fw.ProofStatus("C01", ["Properties.C01"])
+    hl = layers.hashseed_layer(seed, HASHSEED_BUDGET[tier])
+    ok1 = use_simple_layer(v, "C01", hl, "hashseed", ["C01"])
+    if (not ps.ok or not ok1) and not v.violations:
+        big = layers.hashseed_layer(seed + 7919, HASHSEED_BUDGET[tier] * 3)
+        use_simple_layer(v, "C01", big, "hashseed", ["C01"])
+        v.notes.append(f"escalated search: {big['cases']} further cases")
+    if not ps.ok:
+        v.broken(f"proof obligation for C01: {ps.failing_obligation()}", {"theorem_or_build": ps.failing_obligation()})
+    cov = fw.proof_coverage(ps)
+    cov["evaluations"] = hl["steps"]
+    cov["distinct_nontrivial"] = len(hl["shapes"])
+    cov["rule"] = ("each case is executed three times in separate interpreters with PYTHONHASHSEED = 0, 1 and a random value: (a) whole runs of the packaged denver_downtown "
+                   "scenarios (plain, fleets with vehicles in two fleets, constrained charging), 40-200 steps, lazy and eager, through hive_cosim.crank one step at a time; (b) 10 "
+                   "generated worlds per case (two fleets, vehicles in zero/one/two fleets, 2-4 stations with 1-3 plug types of 1-2 plugs incl. co-located stations and tied "
+                   "rankings, human and autonomous drivers, BEV and ICE, requests of equal value) through 3-8 calls of the real StepSimulation.update with Dispatcher + "
+                   "ChargingFleetManager under three charging-range thresholds and both station search types; after every step the canonical entity state (all maps and sets "
+                   "sorted, uuid4 instance ids dropped, all eight indexes) and the canonical multiset of that step's reports (membership print order sorted, session ids dropped) "
+                   "are digested and compared across the three interpreters, and the summary statistics at the end of (a); evaluations = steps executed over all interpreters; "
+                   "distinct_nontrivial = distinct (kind, scenario, dt, lazy) tuples")
+    cov["samples"] = [hl["sample"]]
+    cov["cases"] = hl["cases"]
+    cov["interpreter_runs"] = hl["rows"]
+    cov["trusted_base"] = cov["trusted_base"] + [
+        "the canonicaliser harness/seedrun.py:canon decides what 'the same' means: it sorts maps/sets, drops uuid4 tags and sorts membership lists - exactly the differences C01 allows",
+        "CPython's PYTHONHASHSEED covers str/bytes hashing; three values per case"]
+    v.coverage = cov
+    v.assumptions = ["the theorems cover the model's own sequencing (sorted processing orders, order-free lookups); the setoid congruence of every model function and the "
+                     "unmodelled generators/rankings/reporters are decided by the multi-interpreter runs only (PARTIAL proof)",
+                     "OSM network scenarios are not run (packaged graph not loadable with the installed networkx)"]
+    return v.finish()
